@@ -399,6 +399,22 @@ def run(chk):
     ok = any(isinstance(n, ast.Assign) and isinstance(n.value, ast.Call) and dotted(n.value.func) == "max" for n in walk_body(lm)) and any(
         isinstance(n, ast.Assign) and isinstance(n.value, ast.UnaryOp) and isinstance(n.value.op, ast.USub) for n in walk_body(lm))
     chk.ob("O15.3", "_latest_major is the maximum major over the versioned branches (initial -1)", ok, lm, "")
+    # EVERY versioned branch counts (also 8.0.0-alpha1): between parsing a branch name and the next iteration the running maximum is always updated
+    from sa import pat as _p15
+    glm = cfg_of(lm)
+    lml = [n for n in walk_body(lm) if isinstance(n, ast.For)]
+    upd = [n for n in walk_body(lm) if isinstance(n, ast.Assign) and isinstance(n.value, ast.Call) and dotted(n.value.func) == "max"]
+    unp = [n for n in walk_body(lm) if isinstance(n, ast.Assign) and isinstance(n.value, ast.Call) and last_attr(n.value.func) == "components"]
+    ok = False
+    detail = ""
+    if lml and upd and unp:
+        fs = _p15.fact_nodes(unp[0], stop=lml[0])
+        only_ident = len(fs) == 1 and isinstance(fs[0], ast.Call) and last_attr(fs[0].func) == "is_version_identifier"
+        always = glm.must_pass(glm.node_of(unp[0]), [glm.node_of(upd[0])], exits=[glm.node_of(lml[0])], normal_only=True)
+        ok = only_ident and always and not guards(upd[0], stop=lml[0])[1:]
+        detail = f"parsed under {[u(f_) for f_ in fs]}; maximum updated on every path to the next branch: {always}" + \
+            ("" if ok else " — a versioned branch is left out: `master` is chosen for a version OLDER than that branch")
+    chk.ob("O15.3", "_latest_major counts every versioned branch (no further filter)", ok, upd[0] if upd else lm, detail, key=f"{_V}:_latest_major:every-versioned-branch")
 
     # ---- O15.4 repository fallback order -------------------------------------------------------------------------------------------------------------
     chk.rule("O15.4", "repository update: remote best match < local best match < v-tag over the same variants order < raise; the checked-out ref is the matcher's result; "
@@ -441,6 +457,23 @@ def run(chk):
     tagv = bound_name(tagc[0]) if tagc else None
     ok = bool(raises) and tagv is not None and pat.guarded(raises[0], "not V_t", binds={"t": tagv}) is not None
     chk.ob("O15.4", "explicit error when nothing qualifies", ok, raises[0] if raises else up, "")
+    # the remote branch list is the list the remote HAS: fetch prunes deleted remote branches and brings the tags the tag fallback searches
+    gf = git.func("fetch")
+    cmds = [x for x in ast.walk(gf) if isinstance(x, ast.JoinedStr)]
+    lit = " ".join(str(v.value) for c_ in cmds for v in c_.values if isinstance(v, ast.Constant))
+    toks = lit.split()
+    ok = "fetch" in toks and "--prune" in toks and "--tags" in toks
+    chk.ob("O15.4", "git fetch prunes deleted remote branches and fetches tags", ok, cmds[0] if cmds else gf, f"command words: {toks}" +
+           ("" if ok else " — without --prune a branch deleted upstream keeps matching (origin/<branch> is stale) and is checked out instead of the documented fallback"),
+           key="esrally/utils/git.py:fetch:prune-and-tags")
+    fcalls = [c for c in walk_body(up) if isinstance(c, ast.Call) and dotted(c.func) == "git.fetch"]
+    rb = [c for c in walk_body(up) if isinstance(c, ast.Call) and dotted(c.func) == "git.branches" and "self.remote" in u(c)]
+    ok = bool(fcalls) and bool(rb) and all(gu.dominated_by_nodes(gu.node_of(b_), [gu.node_of(f_) for f_ in fcalls]) for b_ in rb) or (not fcalls and bool(rb))
+    if not fcalls:
+        # the fetch happens in the constructor / another method: accept when some method of the class calls git.fetch under the remote flag
+        anyf = [c for f_ in rep.methods(RR).values() for c in walk_body(f_) if isinstance(c, ast.Call) and dotted(c.func) == "git.fetch"]
+        ok = bool(anyf)
+    chk.ob("O15.4", "remote branches are listed after a fetch", ok, rb[0] if rb else up, "")
     cos = [n for n in walk_body(up) if isinstance(n, ast.Call) and dotted(n.func) == "git.checkout"]
     # the revision pinned for later loads (workers re-load with it) is the head AFTER the ref was switched: no checkout / rebase can follow a revision read
     revw = [n for n in walk_body(up) if isinstance(n, ast.Assign) and any(is_self_attr(t, "revision") for t in n.targets) and isinstance(n.value, ast.Call) and last_attr(n.value.func) == "head_revision"]
